@@ -278,10 +278,122 @@ def gen_features(repo, out, report):
     return {'stable': always, 'unstable_only': unstable}
 
 
+def gen_gate(repo, out, report):
+    """G6: the validation gate.  From Module::parse (src/module/mod.rs): for every arm of `match payload?` record what
+    happens to that payload kind BEFORE walrus consumes it; from LocalFunction::parse / parse_local_functions: that
+    every operator and every locals declaration is handed to the function validator before it is consumed."""
+    p, t = src_tree(repo, 'src/module/mod.rs')
+    body = fn_body(t, 'parse')
+    if body is None: raise Refuse('Module::parse not found')
+    m = find_match(body.items, lambda sc: text(sc).replace(' ', '') == 'payload?')
+    if m is None: raise Refuse('`match payload?` not found in Module::parse')
+    table = []   # (kind, class, validator method)
+    def flat(items):
+        for x in items:
+            if isinstance(x, Group):
+                yield x
+                for y in flat(x.items): yield y
+            else: yield x
+    for pat, b in arms(m):
+        kinds = re.findall(r'Payload :: (\w+)', text(pat))
+        if not kinds: raise Refuse('payload arm without Payload:: pattern: ' + text(pat)[:80])
+        toks = list(flat(b))
+        # position of the first validator call that is followed by `?` (possibly through .context(..))
+        vpos, vmeth = None, None
+        for i, x in enumerate(toks):
+            if is_id(x, 'validator') and i + 3 < len(toks) and is_p(toks[i + 1], '.') and toks[i + 2].k == 'id' and is_g(toks[i + 3], '()'):
+                vpos, vmeth = i, toks[i + 2].s; break
+        # first use of the payload by walrus: `ret . x`, `local_functions . push`, `name_sections . push`, `debug_sections . push`
+        upos = None
+        for i, x in enumerate(toks):
+            if isinstance(x, Tok) and x.k == 'id' and x.s in ('ret', 'local_functions', 'name_sections', 'debug_sections') and i + 1 < len(toks) and is_p(toks[i + 1], '.'):
+                upos = i; break
+        has_bail = any(isinstance(x, Tok) and x.k == 'id' and x.s in ('bail!', 'unreachable!') for x in toks)
+        def question_after(i):
+            # a `?` must follow the call expression (allowing `.context(..)`) before the statement ends
+            depth_items = toks[i:]
+            for y in depth_items:
+                if is_p(y, ';'): return False
+                if is_p(y, '?'): return True
+            return False
+        for k in kinds:
+            if k == 'CustomSection':
+                if vpos is not None: raise Refuse('custom sections are not expected to be validated')
+                cls, meth = 'AK_Custom', ''
+            elif vpos is not None and question_after(vpos) and (upos is None or vpos < upos):
+                cls, meth = ('AK_ValidatedThenRejected' if has_bail and upos is None and vmeth not in ('end', 'version') else 'AK_Validated'), vmeth
+            elif has_bail and upos is None:
+                cls, meth = 'AK_Rejected', ''
+            else:
+                cls, meth = 'AK_Unchecked', ''
+            table.append((k, cls, meth))
+    # function bodies
+    p2, t2 = src_tree(repo, 'src/module/functions/local_function/mod.rs')
+    b2 = fn_body(t2, 'parse')
+    if b2 is None: raise Refuse('LocalFunction::parse not found')
+    toks = list(flat(b2.items))
+    def first(pred):
+        for i, x in enumerate(toks):
+            if pred(i, x): return i
+        return None
+    i_op = first(lambda i, x: is_id(x, 'validator') and i + 2 < len(toks) and is_p(toks[i + 1], '.') and is_id(toks[i + 2], 'op'))
+    i_app = first(lambda i, x: is_id(x, 'append_instruction'))
+    i_fin = first(lambda i, x: is_id(x, 'validator') and i + 2 < len(toks) and is_p(toks[i + 1], '.') and is_id(toks[i + 2], 'finish'))
+    def q_after(i):
+        for y in toks[i:]:
+            if is_p(y, ';'): return False
+            if is_p(y, '?'): return True
+        return False
+    op_first = i_op is not None and i_app is not None and i_op < i_app and q_after(i_op)
+    finish_checked = i_fin is not None and q_after(i_fin)
+    p3, t3 = src_tree(repo, 'src/module/functions/mod.rs')
+    b3 = fn_body(t3, 'parse_local_functions')
+    if b3 is None: raise Refuse('parse_local_functions not found')
+    toks3 = list(flat(b3.items))
+    # the declared locals: inside the `for` whose header reads the number of local declarations (`get_binary_reader` ..
+    # `read_var_u32`), `validator.define_locals(..)?` must come before the first `locals.add`
+    i_rd = None
+    for i, x in enumerate(toks3):
+        if is_id(x, 'get_binary_reader'): i_rd = i; break
+    locals_first = False
+    if i_rd is not None:
+        i_def = None; i_loc = None
+        for i in range(i_rd, len(toks3)):
+            x = toks3[i]
+            if i_def is None and is_id(x, 'define_locals'): i_def = i
+            if i_loc is None and is_id(x, 'locals') and i + 2 < len(toks3) and is_p(toks3[i + 1], '.') and is_id(toks3[i + 2], 'add'): i_loc = i
+        def q3(i):
+            for y in toks3[i:]:
+                if is_p(y, ';'): return False
+                if is_p(y, '?'): return True
+            return False
+        locals_first = i_def is not None and q3(i_def) and (i_loc is None or i_def < i_loc)
+    kinds = [k for k, _, _ in table]
+    if len(set(kinds)) != len(kinds): raise Refuse('a payload kind occurs in two arms')
+    meths = sorted(set(mm for _, _, mm in table if mm))
+    o = ['(* GENERATED by /verif/translator/gen_more.py (G6) from src/module/mod.rs, src/module/functions/mod.rs and',
+         '   src/module/functions/local_function/mod.rs -- do not edit *)', 'From Coq Require Import List Bool. Import ListNotations.',
+         'Inductive payload_kind := ' + ' | '.join('PK_' + k for k in kinds) + '.',
+         'Inductive vmethod := ' + ' | '.join('VM_' + mm for mm in meths) + '.',
+         'Inductive arm_kind := AK_Validated (m : vmethod) | AK_ValidatedThenRejected (m : vmethod) | AK_Rejected | AK_Custom | AK_Unchecked.',
+         'Definition all_payload_kinds : list payload_kind := [%s].' % '; '.join('PK_' + k for k in kinds),
+         'Definition arm (k : payload_kind) : arm_kind :=\n  match k with\n' + '\n'.join('  | PK_%s => %s' % (k, c + (' VM_' + mm if mm else '')) for k, c, mm in table) + '\n  end.',
+         'Definition operator_validated_before_use : bool := %s.' % ('true' if op_first else 'false'),
+         'Definition body_end_validated : bool := %s.' % ('true' if finish_checked else 'false'),
+         'Definition locals_validated_before_use : bool := %s.' % ('true' if locals_first else 'false')]
+    content = '\n'.join(o) + '\n'
+    path = os.path.join(out, 'Gate.v')
+    try:
+        if open(path).read() != content: open(path, 'w').write(content)
+    except OSError: open(path, 'w').write(content)
+    return {'arms': len(table), 'classes': {c: sum(1 for _, cc, _ in table if cc == c) for c in sorted(set(c for _, c, _ in table))}, 'operator_validated_before_use': op_first, 'body_end_validated': finish_checked, 'locals_validated_before_use': locals_first}
+
+
 def run(repo, out, report, g):
     try:
         report['attrs'] = gen_attrs(repo, out, report)
         report['features'] = gen_features(repo, out, report)
+        report['gate'] = gen_gate(repo, out, report)
     except Refuse as e:
         import gen
         raise gen.Refuse(str(e))
